@@ -5,6 +5,7 @@ import (
 	"fmt"
 	"io"
 	"net"
+	"os"
 	"regexp"
 	"runtime/debug"
 	"strings"
@@ -78,13 +79,20 @@ type PanicError struct {
 
 func (p *PanicError) Error() string { return "panic in gateway at " + p.Site + ": " + p.Value }
 
-var frameRe = regexp.MustCompile(`(/repo/[^\s:]+\.go:\d+)`)
+// repoDir: where the gateway's sources were built from (the driver's VERIF_REPO; /repo for every registered command)
+var repoDir = func() string {
+	if d := os.Getenv("VERIF_REPO"); d != "" {
+		return strings.TrimRight(d, "/")
+	}
+	return "/repo"
+}()
+var frameRe = regexp.MustCompile(`(` + regexp.QuoteMeta(repoDir) + `/[^\s:]+\.go:\d+)`)
 var frameReMod = regexp.MustCompile(`(github\.com/versity/versitygw[^\s]*\.go:\d+)`)
 
 // PanicSite extracts the first frame of the gateway's own code from a stack trace.
 func PanicSite(stack string) string {
 	if m := frameRe.FindString(stack); m != "" {
-		return strings.TrimPrefix(m, "/repo/")
+		return strings.TrimPrefix(m, repoDir+"/")
 	}
 	if m := frameReMod.FindString(stack); m != "" {
 		return m
@@ -174,10 +182,12 @@ func (c *fakeConn) Read(p []byte) (int, error) {
 	c.cur = c.cur[n:]
 	return n, nil
 }
-func (c *fakeConn) Write(p []byte) (int, error)      { return c.out.Write(p) }
-func (c *fakeConn) Close() error                     { return nil }
-func (c *fakeConn) LocalAddr() net.Addr              { return &net.TCPAddr{IP: net.IPv4(127, 0, 0, 1), Port: 7070} }
-func (c *fakeConn) RemoteAddr() net.Addr             { return &net.TCPAddr{IP: net.IPv4(127, 0, 0, 1), Port: 40000} }
+func (c *fakeConn) Write(p []byte) (int, error) { return c.out.Write(p) }
+func (c *fakeConn) Close() error                { return nil }
+func (c *fakeConn) LocalAddr() net.Addr         { return &net.TCPAddr{IP: net.IPv4(127, 0, 0, 1), Port: 7070} }
+func (c *fakeConn) RemoteAddr() net.Addr {
+	return &net.TCPAddr{IP: net.IPv4(127, 0, 0, 1), Port: 40000}
+}
 func (c *fakeConn) SetDeadline(time.Time) error      { return nil }
 func (c *fakeConn) SetReadDeadline(time.Time) error  { return nil }
 func (c *fakeConn) SetWriteDeadline(time.Time) error { return nil }
